@@ -138,7 +138,7 @@ def _module_ob(kind):
         kf_late = ctx.known("C04-late-default", replay_access)
         kf_opblank = ctx.known("C04-operator-blank", replay_access) if kind == "operator-interface" else None
         h.excl = (bool(kf_late), bool(kf_opblank))
-        E = sym.Engine(ctx, max_paths=20000)
+        E = sym.Engine(ctx, max_paths=20000, incremental=True)
         found = E.explore(h)
         seen = set()
         for label, m, pc in found:
@@ -161,3 +161,97 @@ def _module_ob(kind):
 
 for _k in list(KINDS) + list(PROC_KINDS):
     _module_ob(_k)
+
+
+# ---------------------------------------------------------------------------------------
+# derived-type scope: components and bindings have separate defaults
+# ---------------------------------------------------------------------------------------
+T_HEAD = [("type t", None), ("type :: t", None), ("type, public :: t", "public"), ("type, private :: t", "private"),
+          ("TYPE,PRIVATE::T", "private")]
+T_NOOP = "sequence"
+TD_OPTS = [(T_NOOP, None), ("private", "private"), ("PRIVATE", "private")]
+COMP = [("integer :: c", None), ("integer, public :: c", "public"), ("integer, private :: c", "private"),
+        ("INTEGER,PRIVATE::C", "private"), ("real, pointer, public :: c(:)", "public"), ("type(t), pointer :: c", None)]
+BIND = [
+    ("procedure :: b", None, 1), ("procedure b", None, 1), ("procedure, public :: b", "public", 1),
+    ("procedure, private :: b", "private", 1), ("PROCEDURE, PRIVATE :: B => impl", "private", 1),
+    ("procedure :: b, b2", None, 2), ("procedure, private :: b, b2", "private", 2), ("procedure, public :: b, b2 => impl", "public", 2),
+    ("generic :: b => b2, b3", None, 1), ("generic, private :: b => b2", "private", 1), ("GENERIC, PUBLIC :: B => B2, B3", "public", 1),
+    ("procedure(iface), deferred, private :: b", "private", 1), ("procedure, nopass, public :: b", "public", 1),
+]
+
+
+def replay_type_access(w):
+    f = parserh.parse_concrete(list(w["program"]))
+    t = f.modules[0].types[0]
+    got = {"type": t.permission, "component": [v.permission for v in t.variables], "bindings": [b.permission for b in t.boundprocs]}
+    return got != w["expected"], {"program": w["program"], "ford": got, "fortran_rule": w["expected"]}
+
+
+def _type_scope_ob(name, vary):
+    @obligation("C04", "O4.type-scope." + name, engine="SX(CV)", timeout=1800)
+    def ob(ctx):
+        import ford.sourceform as sf
+
+        ctx.encode_fn(sf.FortranContainer.__init__)
+        ctx.encode_fn(sf.FortranType._initialize)
+        ctx.encode_fn(sf.FortranBoundProcedure._initialize)
+        ctx.encode_fn(sf.line_to_variables)
+        ctx.stubs.append("FortranReader replaced by the list of symbolic statements")
+
+        def pick(E, nm, opts):
+            # a slot is symbolic when it is in `vary` (or in the thorough tier), else its first two options
+            if nm in vary or ctx.thorough:
+                return CV.choice(E, nm, opts)
+            return CV.choice(E, nm, opts[:2])
+
+        def h(E):
+            d0 = pick(E, "d0", D_OPTS)
+            hd = pick(E, "thead", T_HEAD)
+            td = pick(E, "td", TD_OPTS)
+            c = pick(E, "comp", COMP)
+            bd = pick(E, "bd", TD_OPTS)
+            b = pick(E, "bind", BIND)
+            prog = ["module m", d0[0], hd[0], td[0], c[0], "contains", bd[0], b[0], "end type t", "end module m"]
+            h.prog = prog
+            f = parserh.parse(list(prog))
+            t = f.modules[0].types[0]
+            E.reachable("parsed")
+            want_t = choice.apply(lambda a, d: a or d or "public", hd[1], d0[1])
+            want_c = choice.apply(lambda a, d: a or d or "public", c[1], td[1])
+            want_b = choice.apply(lambda a, d: a or d or "public", b[1], bd[1])
+            nb = b[2]
+            h.want = {"type": want_t, "component": [want_c], "bindings": choice.apply(lambda w_, n: [w_] * n, want_b, nb)}
+            E.require(choice.apply(lambda g, w_: g == w_, t.permission, want_t), "type accessibility differs from Fortran's rule")
+            E.require(choice.apply(lambda n: n == 1, len(t.variables)), "component missing")
+            for v in t.variables:
+                E.require(choice.apply(lambda g, w_: g == w_, v.permission, want_c), "component accessibility differs from Fortran's rule")
+            E.require(choice.apply(lambda n, k: n == k, len(t.boundprocs), nb), "number of bindings differs from the declaration")
+            for bp in t.boundprocs:
+                E.require(choice.apply(lambda g, w_: g == w_, bp.permission, want_b), "binding accessibility differs from Fortran's rule")
+
+        E = sym.Engine(ctx, max_paths=20000, incremental=True)
+        found = E.explore(h)
+        seen = set()
+        for label, m, pc in found:
+            if label in seen:
+                continue
+            seen.add(label)
+            ctx.report(label, {"program": choice.value_in_model(m, h.prog),
+                               "expected": {k: choice.value_in_model(m, v) for k, v in h.want.items()}}, replay_type_access)
+        if E.reached.get("parsed"):
+            ctx.twins += 1
+        else:
+            ctx.inconclusive.append("vacuity: parser never completed")
+        ctx.bounds.update({"fully symbolic slots": sorted(vary) if not ctx.thorough else "all",
+                           "option counts": {"module default": len(D_OPTS), "type header": len(T_HEAD), "component default": len(TD_OPTS),
+                                             "component": len(COMP), "binding default": len(TD_OPTS), "binding": len(BIND)}})
+        ctx.sample({"paths": E.paths})
+
+    ob.__doc__ = ("derived type: own accessibility, component default (PRIVATE before CONTAINS) and binding default (PRIVATE after "
+                  "CONTAINS) are tracked separately and overridden by attributes; varying " + ", ".join(sorted(vary)))
+
+
+_type_scope_ob("type-own", {"d0", "thead"})
+_type_scope_ob("components", {"td", "comp", "thead"})
+_type_scope_ob("bindings", {"bd", "bind", "thead"})
